@@ -61,6 +61,9 @@ type Case struct {
 	// alone for this many milliseconds of real time; then one more exchange must converge and
 	// Done must still be silent (nothing armed during the teardown may hit the new stream later)
 	Linger int `json:"linger,omitempty"`
+	// QFirst (reset-reconnect): the request for the new session is queued after Reset but
+	// before Connect (it waits in the client until StartSending) instead of after StartSending
+	QFirst bool `json:"qfirst,omitempty"`
 }
 
 func setup() {
@@ -470,13 +473,24 @@ func runCase(c Case) *ev.Verdict {
 			fail("replace-stub", "%v", err)
 			return v
 		}
+		if c.QFirst {
+			if !within(func() { cl.Q(opReq(1000)) }) {
+				fail("q-blocks", "Q after Reset (before Connect) did not return")
+				return v
+			}
+			if p, _ := cl.Pending(); len(p) != 1 {
+				fail("queued-before-connect-not-pending", "an operation queued after Reset and before Connect is not pending: Pending() has %d entries (%s/%s at %d)", len(p), c.Side, c.Class, c.At)
+				return v
+			}
+			v.Class("queued-between-reset-and-connect")
+		}
 		if err := cl.Connect(ctx); err != nil {
 			fail("reconnect", "%v", err)
 			return v
 		}
 		cl.StartSending()
 		st2 := stub2.Stream(0)
-		if !within(func() { cl.Q(opReq(1000)) }) {
+		if !c.QFirst && !within(func() { cl.Q(opReq(1000)) }) {
 			fail("q-blocks", "Q after Reset+Connect did not return")
 			return v
 		}
@@ -745,6 +759,7 @@ func TestCampaign(t *testing.T) {
 			c.Burst = rapid.IntRange(0, 12).Draw(rt, "burst")
 			c.Epilogue = []string{"close", "reset-reconnect"}[rapid.IntRange(0, 1).Draw(rt, "epilogue")]
 			c.Waiters = rapid.IntRange(0, 2).Draw(rt, "waiters")
+			c.QFirst = c.Epilogue == "reset-reconnect" && rapid.Bool().Draw(rt, "qfirst")
 			c.Concurrent = c.Side == "recv" && rapid.Bool().Draw(rt, "concurrent")
 			v := runCase(c)
 			col.Check(rt, ev.JSON(c), v)
